@@ -299,6 +299,118 @@ def _where(a, b, path=""):
     return f"{path}: {a} vs {b}"
 
 
+class BoundaryValues(Values):
+    """every text is exactly `extra` characters longer than what fits its field"""
+
+    def __init__(self, extra):
+        super().__init__(0, specials=False)
+        self.extra = extra
+
+    def text(self, vid, width):
+        return (f"{vid}:" + "b" * width)[: width - 1 + self.extra]
+
+
+def boundary_texts(run, vecs):
+    """C02 also for blocks whose texts are exactly as long as their field or one longer: the
+    library may refuse them (C13 says it must) - but whatever it accepts and writes must have
+    the size it declares"""
+    n = 0
+    seen = set()
+    for vec in vecs:
+        kind = vec["kind"]
+        if kind in seen or kind in ("Header", "Entry") or not any(t["ty"] == "str" for t in vec["toks"]):
+            continue
+        seen.add(kind)
+        for extra in (1, 2):
+            n += 1
+            try:
+                obj = ab.gamma(kind, vec["fmt"], vec["b"], BoundaryValues(extra), 0)
+                enc = ab.encode(obj)
+            except Exception:  # noqa: BLE001
+                continue
+            if obj.nBytes != len(enc) and len(run.violations) < 5:
+                run.violation(f"C02:nbytes_ne_written on {kind} with a text of field width + {extra - 1}: the block was "
+                              f"accepted, declares {obj.nBytes} bytes and writes {len(enc)}",
+                              dict(kind="codec-boundary", block_kind=kind, extra=extra))
+    return n
+
+
+def file_equality(run, vecs, seed, limit):
+    """C14, file part: two files compare equal exactly when version, slot count and block lists do"""
+    import os
+    import struct as _st
+    from basictdf import Tdf
+    work = common.scratch()
+    n = 0
+
+    def build(path, blocks_, version=1, slots=14):
+        if os.path.exists(path):
+            os.unlink(path)
+        t = Tdf.new(path)
+        with t.allow_write() as f:
+            for b in blocks_:
+                f.add_block(b)
+        if version != 1 or slots != 14:
+            raw = bytearray(open(path, "rb").read())
+            _st.pack_into("<I", raw, 16, version)
+            if slots != 14:
+                # same blocks in a table with more slots: rebuild through refio
+                from . import refio
+                p = refio.parse(bytes(raw))
+                shift = 288 * (slots - 14)
+                ents = [dict(e, offset=e["offset"] + shift) for e in p.table]
+                ents += [dict(type=0, format=0, offset=len(raw) + shift, size=0)] * (slots - 14)
+                raw = bytearray(refio.build_file(slots, ents, bytes(raw[64 + 288 * 14:]), version=version))
+            open(path, "wb").write(bytes(raw))
+
+    def equal(p1, p2):
+        with Tdf(p1) as x, Tdf(p2) as y:
+            return bool(x == y), bool(y == x)
+
+    pa, pb = os.path.join(work, "eqA.tdf"), os.path.join(work, "eqB.tdf")
+    picked = [v for v in vecs if v["kind"] in ab.BLOCK_KINDS and v.get("mutants")][seed % 7::max(1, len(vecs) // limit)]
+    for vec in picked[:limit]:
+        kind, fmt, b = vec["kind"], vec["fmt"], vec["b"]
+        try:
+            a1 = ab.gamma(kind, fmt, b, Values(seed, specials=False), 0)
+            a2 = ab.gamma(kind, fmt, b, Values(seed, specials=False), 1)
+            extra = ab.gamma("Events", 1, dict(startTime=41, events=[dict(label=51, type=0, values=[301])]), Values(seed, specials=False), 0)
+            other = [] if kind == "Events" else [extra]
+            build(pa, [a1] + other)
+            build(pb, other + [a2] if False else [a2] + other)
+            n += 1
+            e1, e2 = equal(pa, pb)
+            if not (e1 and e2) and len(run.violations) < 5:
+                run.violation(f"C14:equal_files_unequal two files holding the same {kind} block compare unequal",
+                              dict(kind="codec-file-eq", vector=vec))
+            m = vec["mutants"][seed % len(vec["mutants"])]
+            try:
+                bm = ab.gamma(kind, fmt, m, Values(seed, specials=False), 0)
+            except Exception:  # noqa: BLE001
+                continue
+            build(pb, [bm] + other)
+            n += 1
+            e1, e2 = equal(pa, pb)
+            if (e1 or e2) and len(run.violations) < 5:
+                run.violation(f"C14:different_files_equal files differing in one site of their {kind} block compare equal: {_where(b, m)}",
+                              dict(kind="codec-file-eq", vector=vec))
+            build(pb, [a2] + other, version=2)
+            e1, e2 = equal(pa, pb)
+            build(pb, [a2] + other, slots=15)
+            f1, f2 = equal(pa, pb)
+            n += 2
+            if (e1 or e2 or f1 or f2) and len(run.violations) < 5:
+                run.violation("C14:different_files_equal files that differ in version or slot count compare equal",
+                              dict(kind="codec-file-eq", vector=vec))
+        except Exception as x:  # noqa: BLE001
+            if len(run.violations) < 5:
+                run.violation(f"C14:file_comparison_raises {type(x).__name__}: {x} ({kind})", dict(kind="codec-file-eq", vector=vec))
+    for pth in (pa, pb):
+        if os.path.exists(pth):
+            os.unlink(pth)
+    return n
+
+
 def real_sized(run, prop, tier, seed, vecs):
     """M2 / M3: the exported layout on real-sized data; returns the number of cases"""
     from . import bigdata
@@ -352,6 +464,8 @@ def check(prop, tier, seed, replay=None):
     mutants = prop == "C14"
     if replay:
         rp = json.load(open(replay))["replay"]
+        if rp.get("kind") in ("codec-boundary", "codec-file-eq"):
+            return check(prop, "quick", seed)   # these scenarios are cheap: the replay is the quick run itself
         if rp.get("kind") in ("bigblock", "capture", "header"):
             from . import bigdata
             if rp["kind"] == "bigblock":
@@ -431,6 +545,12 @@ def check(prop, tier, seed, replay=None):
     n_eval += n_morph
     run.cov["in_place_edit_vectors"] = n_morph
     n_eval += real_sized(run, prop, tier, seed, vecs)
+    if prop == "C02":
+        n_eval += boundary_texts(run, vecs)
+    if prop == "C14":
+        nf = file_equality(run, vecs, seed, 40 if tier == "quick" else 300)
+        run.cov["file_pairs_compared"] = nf
+        n_eval += nf
     run.cov["traces_validated_against_impl"] = n_eval
     run.cov["evaluations"] = n_eval
     run.cov["distinct_nontrivial"] = nontrivial
